@@ -19,8 +19,15 @@ VERIF = os.path.dirname(os.path.dirname(os.path.abspath(__file__)))
 REPO = os.environ.get("GV_REPO", "/repo")
 WORK = os.path.join(VERIF, ".work")
 COQ = os.path.join(VERIF, "coq")
-HARNESS = os.path.join(VERIF, "harness")
-TARGET = os.path.join(WORK, "target")
+# GV_SCRATCH=<dir>: development aid for mutation testing — use <dir>/harness (a copy of
+# harness/ whose path dependencies point at <dir>/repo), <dir>/target, and write evidence and
+# replays under <dir>/out instead of /verif.  Never set by the registered commands.
+SCRATCH = os.environ.get("GV_SCRATCH")
+HARNESS = os.path.join(SCRATCH, "harness") if SCRATCH else os.path.join(VERIF, "harness")
+TARGET = os.path.join(SCRATCH, "target") if SCRATCH else os.path.join(WORK, "target")
+OUTDIR = os.path.join(SCRATCH, "out") if SCRATCH else VERIF
+if SCRATCH:
+    REPO = os.path.join(SCRATCH, "repo")
 NPROC = os.cpu_count() or 4
 GUARD = "grmtools_verif"
 
@@ -275,7 +282,7 @@ class Ctx:
             self.discharged += 1
 
     def replay_path(self, data):
-        d = os.path.join(VERIF, "replays", self.prop)
+        d = os.path.join(OUTDIR, "replays", self.prop)
         os.makedirs(d, exist_ok=True)
         body = json.dumps(data, indent=1, sort_keys=True, ensure_ascii=False)
         h = hashlib.sha1(body.encode()).hexdigest()[:12]
@@ -331,8 +338,8 @@ class Ctx:
             "coverage": cov, "assumptions": self.assumptions,
             "wall_s": round(time.time() - self.t0, 2), "violations": len(self.violations),
         }
-        os.makedirs(os.path.join(VERIF, "evidence"), exist_ok=True)
-        with open(os.path.join(VERIF, "evidence", self.prop + ".json"), "w") as f:
+        os.makedirs(os.path.join(OUTDIR, "evidence"), exist_ok=True)
+        with open(os.path.join(OUTDIR, "evidence", self.prop + ".json"), "w") as f:
             json.dump(ev, f, indent=1, ensure_ascii=False)
             f.write("\n")
         return 1 if self.violations else 0
